@@ -48,24 +48,96 @@ Qed.
 Lemma fsqrt_spec : forall a, 0 <= fst (fsqrt a) < secp_p /\ snd (fsqrt a) = (fsqr (fst (fsqrt a)) =? a).
 Proof. intros a. unfold fsqrt. cbn [fst snd]. split; [unfold fsqrt_chain; apply fsqr_range|reflexivity]. Qed.
 
-Lemma ge_set_xo_sound : forall x odd P, 0 <= x < secp_p -> ge_set_xo x odd = Some P ->
-  exists y, P = (x, y) /\ 0 <= y < secp_p /\ on_curve x y = true /\ (y = 0 \/ Z.odd y = odd).
+Lemma xo_core : forall a r odd, 0 <= r < secp_p -> fsqr r = a ->
+  let y := if Bool.eqb (Z.odd r) odd then r else fneg r in
+  0 <= y < secp_p /\ fsqr y = a /\ (y = 0 \/ Z.odd y = odd).
 Proof.
-  intros x odd P Hx H. unfold ge_set_xo in H. destruct secp_p_bounds as ([Hp1 Hp2] & Hp4 & _).
-  set (a := curve_rhs x) in *.
-  destruct (fsqrt_spec a) as [Hr Hok].
-  destruct (fsqrt a) as [r ok]. cbn [fst snd] in Hr, Hok. subst ok.
-  destruct (Z.eqb_spec (fsqr r) a) as [E|]; [|discriminate].
+  intros a r odd Hr E y. subst y. destruct secp_p_bounds as ([Hp1 Hp2] & _).
   assert (Hodd : Z.odd secp_p = true) by (vm_compute; reflexivity).
   destruct (Bool.eqb (Z.odd r) odd) eqn:Epar.
-  - exists r. assert (EP : P = (x, r)) by congruence. repeat split; try lia; auto.
-    + unfold on_curve. fold a. apply Z.eqb_eq. assumption.
-    + right. apply Bool.eqb_prop. assumption.
-  - exists (fneg r). assert (EP : P = (x, fneg r)) by congruence.
-    destruct (fneg_spec r Hr) as [En Hn]. repeat split; try lia; auto.
-    + unfold on_curve. fold a. apply Z.eqb_eq. rewrite <- E. rewrite !fsqr_spec, En.
-      rewrite <- Z.mul_mod by lia. f_equal. ring.
+  - repeat split; try lia; auto. right. apply Bool.eqb_prop. assumption.
+  - destruct (fneg_spec r Hr) as [En Hn]. repeat split; try lia.
+    + rewrite <- E. rewrite !fsqr_spec, En. rewrite <- Z.mul_mod by lia. f_equal. ring.
     + unfold fneg. destruct (Z.eqb_spec r 0) as [->|Hnz].
       * left. reflexivity.
       * right. rewrite Z.odd_sub, Hodd. clear -Epar. destruct (Z.odd r), odd; cbn in Epar |- *; try reflexivity; discriminate.
+Qed.
+
+Lemma ge_set_xo_with_sound : forall sqrtf,
+  (forall a, 0 <= fst (sqrtf a) < secp_p /\ snd (sqrtf a) = (fsqr (fst (sqrtf a)) =? a)) ->
+  forall x odd P, ge_set_xo_with sqrtf x odd = Some P ->
+  exists y, P = (x, y) /\ 0 <= y < secp_p /\ on_curve x y = true /\ (y = 0 \/ Z.odd y = odd).
+Proof.
+  intros sqrtf Hs x odd P H. unfold ge_set_xo_with in H.
+  destruct (Hs (curve_rhs x)) as [Hr Hok].
+  destruct (sqrtf (curve_rhs x)) as [r ok]. cbn [fst snd] in Hr, Hok.
+  destruct ok; [|discriminate]. symmetry in Hok. apply Z.eqb_eq in Hok.
+  destruct (xo_core (curve_rhs x) r odd Hr Hok) as (Hy & Ey & Hpar).
+  exists (if Bool.eqb (Z.odd r) odd then r else fneg r).
+  repeat split; try tauto; try congruence.
+  unfold on_curve. apply Z.eqb_eq. exact Ey.
+Qed.
+
+Lemma ge_set_xo_sound : forall x odd P, ge_set_xo x odd = Some P ->
+  exists y, P = (x, y) /\ 0 <= y < secp_p /\ on_curve x y = true /\ (y = 0 \/ Z.odd y = odd).
+Proof. exact (ge_set_xo_with_sound fsqrt fsqrt_spec). Qed.
+
+(* a value without square root is rejected (no number theory needed: the candidate root is checked) *)
+Theorem ge_set_xo_rejects_non_residue : forall x odd,
+  (forall y, 0 <= y < secp_p -> fsqr y <> curve_rhs x) -> ge_set_xo x odd = None.
+Proof.
+  intros x odd Hn. destruct (ge_set_xo x odd) as [P|] eqn:E; [|reflexivity].
+  apply ge_set_xo_sound in E. destruct E as (y & _ & Hy & Hc & _).
+  unfold on_curve in Hc. apply Z.eqb_eq in Hc. exfalso. exact (Hn y Hy Hc).
+Qed.
+
+Definition tag_ok (tag : N) (y : Z) : Prop :=
+  match tag with
+  | 2%N => y = 0 \/ Z.odd y = false
+  | 3%N => y = 0 \/ Z.odd y = true
+  | 4%N => True
+  | 6%N => Z.odd y = false
+  | 7%N => Z.odd y = true
+  | _ => False
+  end.
+
+(* whatever secp256k1_ec_pubkey_parse accepts is a point of the curve with reduced coordinates, and the
+   tag byte agrees with the parity of y *)
+Theorem ec_pubkey_parse_sound : forall tag rest x y, bytes_ok rest ->
+  ec_pubkey_parse (tag :: rest) = Some (x, y) ->
+  0 <= x < secp_p /\ 0 <= y < secp_p /\ on_curve x y = true /\ tag_ok tag y /\
+  ((length rest = 32%nat /\ x = be_val rest) \/ (length rest = 64%nat /\ x = be_val (firstn 32 rest) /\ y = be_val (skipn 32 rest))).
+Proof.
+  intros tag rest x y Hb H. unfold ec_pubkey_parse in H. cbn [length] in H.
+  destruct (Nat.eqb_spec (S (length rest)) 33) as [L33|_].
+  - assert (L : length rest = 32%nat) by lia.
+    destruct ((tag =? 2)%N || (tag =? 3)%N) eqn:Etag.
+    + cbn [andb] in H. rewrite fe_set_b32_limit_spec in H by assumption.
+      destruct (Z.ltb_spec (be_val rest) secp_p) as [Hx|]; [|discriminate].
+      apply ge_set_xo_sound in H. destruct H as (y' & EP & Hy & Hc & Hpar). injection EP as Ex Ey. subst x y.
+      pose proof (be_val_bound rest Hb) as [Hv _].
+      split; [lia|]. split; [lia|]. split; [exact Hc|]. split; [|left; split; [assumption|reflexivity]].
+      apply Bool.orb_true_iff in Etag. destruct Etag as [E|E]; apply N.eqb_eq in E; subst tag; cbn [tag_ok]; change (2 =? 3)%N with false in Hpar; change (3 =? 3)%N with true in Hpar; exact Hpar.
+    + cbn [andb] in H. replace (S (length rest) =? 65)%nat with false in H by (symmetry; apply Nat.eqb_neq; lia).
+      discriminate.
+  - cbn [andb] in H. destruct (Nat.eqb_spec (S (length rest)) 65) as [L65|_]; [|discriminate].
+    assert (L : length rest = 64%nat) by lia.
+    destruct ((tag =? 4)%N || (tag =? 6)%N || (tag =? 7)%N) eqn:Etag; [|discriminate]. cbn [andb] in H.
+    assert (Hb12 : bytes_ok (firstn 32 rest) /\ bytes_ok (skipn 32 rest)).
+    { unfold bytes_ok in *. apply Forall_app. rewrite firstn_skipn. exact Hb. }
+    destruct Hb12 as [Hb1 Hb2].
+    assert (L1 : length (firstn 32 rest) = 32%nat) by (rewrite firstn_length; lia).
+    assert (L2 : length (skipn 32 rest) = 32%nat) by (rewrite skipn_length; lia).
+    rewrite !fe_set_b32_limit_spec in H by assumption.
+    destruct (Z.ltb_spec (be_val (firstn 32 rest)) secp_p) as [Hx|]; [|discriminate].
+    destruct (Z.ltb_spec (be_val (skipn 32 rest)) secp_p) as [Hy|]; [|discriminate].
+    pose proof (be_val_bound _ Hb1) as [Hv1 _]. pose proof (be_val_bound _ Hb2) as [Hv2 _].
+    destruct (((tag =? 6)%N || (tag =? 7)%N) && negb (Bool.eqb (Z.odd (be_val (skipn 32 rest))) (tag =? 7)%N)) eqn:Ehy; [discriminate|].
+    destruct (on_curve _ _) eqn:Hc; [|discriminate]. injection H as Ex Ey. subst x y.
+    split; [lia|]. split; [lia|]. split; [exact Hc|]. split; [|right; repeat split; assumption].
+    apply Bool.orb_true_iff in Etag. destruct Etag as [Etag|E7].
+    + apply Bool.orb_true_iff in Etag. destruct Etag as [E4|E6].
+      * apply N.eqb_eq in E4. subst tag. exact I.
+      * apply N.eqb_eq in E6. subst tag. simpl in Ehy |- *. destruct (Z.odd _); [discriminate|reflexivity].
+    + apply N.eqb_eq in E7. subst tag. simpl in Ehy |- *. destruct (Z.odd _); [reflexivity|discriminate].
 Qed.
